@@ -1,4 +1,4 @@
-CONSTANTS Names = {"A", "B"} Vals = {"empty", "v0", "v1", "v2", "txt"} MaxLines = 9 MaxDepth = 3 ExprDepth = 1 AllowBare = FALSE StaleGroup = FALSE AtomKinds = {"def", "defsp", "cmp", "lit"} RelSet = {"==", "!=", "<", ">", "<=", ">="}
+CONSTANTS Names = {"A", "B"} Vals = {"empty", "v0", "v1", "v2", "txt", "fn"} MaxLines = 9 MaxDepth = 3 ExprDepth = 1 AllowBare = FALSE StaleGroup = FALSE AtomKinds = {"def", "defsp", "cmp", "lit"} RelSet = {"==", "!=", "<", ">", "<=", ">="}
 SPECIFICATION Spec
 VIEW View
 INVARIANT ImplAgrees
